@@ -76,28 +76,19 @@ package mainmw
 // response, and a blocked query is answered by the requester's own message
 // constructor - never with the records obtained from upstream.
 
-// blockedBy[m] is the constructor that built blocked response m.
-//@ ghost blockedBy map[*dns.Msg]*dnsmsg.Constructor
-//@ func (*dnsmsg.Constructor).NewBlockedResp
-//@   modifies blockedBy
-//@   ensures err == nil ==> msg != nil && fresh(msg) && blockedBy[msg] == c
-//@   ensures err != nil ==> msg == nil
-//@   ensures forall m *dns.Msg :: m != msg ==> blockedBy[m] == old(blockedBy[m])
-//@ func (*dnsmsg.Constructor).NewBlockedRespRCode
-//@   modifies blockedBy
-//@   ensures resp != nil && fresh(resp) && blockedBy[resp] == c
-//@   ensures forall m *dns.Msg :: m != resp ==> blockedBy[m] == old(blockedBy[m])
+// (blockedBy[m], the constructor that built blocked response m, is declared
+// with the constructor's contracts in dnsmsg.)
 
 //@ pred knownRes(r filter.Result) = r == nil || isptr(r, filter.ResultAllowed) || isptr(r, filter.ResultBlocked) ||
 //@        isptr(r, filter.ResultModifiedResponse) || isptr(r, filter.ResultModifiedRequest)
-//@ pred FC(fctx *filteringContext, ri *agd.RequestInfo) = fctx != nil && ri != nil && ri.Messages != nil && fctx.originalRequest != nil &&
+//@ pred FC(fctx *filteringContext, ri *agd.RequestInfo) = fctx != nil && ri != nil && CV(ri.Messages) && knownMode(ri.Messages) && fctx.originalRequest != nil && len(fctx.originalRequest.Question) >= 1 &&
 //@        knownRes(fctx.requestResult) && (fctx.requestResult == nil ==> fctx.responseResult == nil || isptr(fctx.responseResult, filter.ResultAllowed) || isptr(fctx.responseResult, filter.ResultBlocked)) &&
 //@        (isptr(fctx.requestResult, filter.ResultModifiedResponse) ==> asptr(fctx.requestResult, filter.ResultModifiedResponse) != nil)
 
 //@ func (*Middleware).setFilteredResponseNoReq
 //@   property C02
 //@   requires mw != nil && mw.logger != nil && FC(fctx, ri) && fctx.requestResult == nil
-//@   modifies fctx.filteredResponse, blockedBy
+//@   modifies fctx.filteredResponse, blockedBy, dns.OPT.Option, allelems(dns.EDNS0)
 //@   ensures unfiltered-or-allowed-gets-the-upstream-answer: fctx.responseResult == nil || isptr(fctx.responseResult, filter.ResultAllowed) ==> fctx.filteredResponse == fctx.originalResponse
 //@   ensures blocked-answer-comes-from-the-requesters-constructor: isptr(fctx.responseResult, filter.ResultBlocked) ==>
 //@             fctx.filteredResponse != nil && fresh(fctx.filteredResponse) && blockedBy[fctx.filteredResponse] == ri.Messages
@@ -105,7 +96,7 @@ package mainmw
 //@ func (*Middleware).setFilteredResponse
 //@   property C02
 //@   requires mw != nil && mw.logger != nil && FC(fctx, ri)
-//@   modifies fctx.filteredResponse, blockedBy
+//@   modifies fctx.filteredResponse, blockedBy, dns.OPT.Option, allelems(dns.EDNS0)
 //@   ensures request-verdict-first-allowed: isptr(fctx.requestResult, filter.ResultAllowed) || isptr(fctx.requestResult, filter.ResultModifiedRequest) ==>
 //@             fctx.filteredResponse == fctx.originalResponse
 //@   ensures request-verdict-first-rewritten: isptr(fctx.requestResult, filter.ResultModifiedResponse) ==>
